@@ -149,6 +149,24 @@ fn run_slice_seq(r: &mut Rng, ctors: &[u64], ops: &[(u64, usize, usize)]) -> (Ve
         let i = *i % pool.len();
         let j = *j % pool.len();
         match op % NOPS {
+            0 if j % 2 == 1 && i != j => {
+                // clone_from: #j takes #i's value; what #j held before is released exactly once
+                let (src, rest) = if i < j { let (a, b) = pool.split_at_mut(j); (&a[i], &mut b[0]) } else { let (a, b) = pool.split_at_mut(i); (&b[0], &mut a[j]) };
+                match rest.1 {
+                    MK::Owned => owned_elems -= rest.2.len() as isize,
+                    MK::Shared(a) => arc_expect[a] -= 1,
+                    MK::Borrowed => {}
+                }
+                rest.0.clone_from(&src.0);
+                rest.1 = src.1;
+                rest.2 = src.2.clone();
+                match rest.1 {
+                    MK::Owned => owned_elems += rest.2.len() as isize,
+                    MK::Shared(a) => arc_expect[a] += 1,
+                    MK::Borrowed => {}
+                }
+                trace.push(format!("#{}.clone_from(#{})", j, i));
+            }
             0 => {
                 // clone
                 let c = pool[i].0.clone();
@@ -418,6 +436,20 @@ fn run_str_seq(r: &mut Rng, ctors: &[u64], ops: &[(u64, usize, usize)]) -> (Vec<
         let i = *i % pool.len();
         let j = *j % pool.len();
         match op % NOPS {
+            0 if j % 2 == 1 && i != j => {
+                // clone_from: #j takes #i's value; what #j held before is released exactly once
+                let (src, rest) = if i < j { let (a, b) = pool.split_at_mut(j); (&a[i], &mut b[0]) } else { let (a, b) = pool.split_at_mut(i); (&b[0], &mut a[j]) };
+                if let MK::Shared(a) = rest.1 {
+                    arc_expect[a] -= 1;
+                }
+                rest.0.clone_from(&src.0);
+                rest.1 = src.1;
+                rest.2 = src.2.clone();
+                if let MK::Shared(a) = rest.1 {
+                    arc_expect[a] += 1;
+                }
+                trace.push(format!("#{}.clone_from(#{})", j, i));
+            }
             0 => {
                 let c = pool[i].0.clone();
                 let (mk, content) = (pool[i].1, pool[i].2.clone());
